@@ -60,7 +60,7 @@ def minimums(tier):
 
 def plan(tier, seed):
     n = 16 if tier == "quick" else 64
-    per = 60 if tier == "quick" else 400
+    per = 300 if tier == "quick" else 1200
     return [{"cases": per, "base": seed * 1000003 + k} for k in range(n)]
 
 
@@ -302,9 +302,25 @@ def run_case(base, case, acc, truncate=None):
                 dict(ident, trace=trace[-16:], exit_exception=hist.describe_exc(exit_exc), outcome=outcome),
             )
             break
-        if diffs and _only_outside_refs_changed(diffs):
+        how = _only_outside_refs_changed(diffs) if diffs else None
+        if how:
+            # the two recorded mechanisms, each proved by what the block contains and by
+            # the kind of object concerned; any other shape is a fresh violation
+            kinds_obj = sorted({d.split(" ")[0] for d in diffs if d.startswith(("metabolite ", "gene "))})
+            inside_ops = set(kinds_inside)
+            if how == "dropped" and inside_ops & {"manipulation.rename_genes", "model.repair"}:
+                pass  # rename_genes -> Model.repair() rebuilds back references from the model's reactions only
+            elif how == "added" and kinds_obj == ["gene"] and inside_ops & {"manipulation.remove_genes", "model.add_reactions", "model.merge"}:
+                # a reaction (re-)joins the model inside the block and leaves it again on
+                # exit, but an undo entry of the gene bookkeeping (remove_genes, or
+                # update_genes_from_gpr dissociating the genes the reaction object still
+                # carried from its earlier life) re-associates it afterwards
+                pass
+            else:
+                how = None
+        if how:
             acc.violation(
-                "C03/not-restored/reference-to-reaction-outside-the-model-" + _only_outside_refs_changed(diffs),
+                "C03/not-restored/reference-to-reaction-outside-the-model-" + how,
                 f"after leaving the context the references of a model metabolite/gene to reactions that are not part of the model differ: {diffs[0]}",
                 dict(ident, trace=trace[-16:], diffs=diffs[:10], exit_depth=depth, outcome=outcome),
             )
